@@ -59,12 +59,16 @@ def _rd_bytes(rd, n):
 
 
 def queries_root(q):
-    """root of HashmapE 64 WalletMessage built by the library's dictionary serialiser (C09/C10), None when empty"""
+    """root of HashmapE 64 WalletMessage: dictionary structure by the library's HashMap (C09/C10), values by enc('wm'); None when empty"""
     if not q:
         return None
     _, _, HashMap = M._lib()
-    return HashMap(64, map_={k: lib_obj('wm', v) for k, v in q.items()},
-                   value_serializer=lambda src, dest: dest.store_cell(src.serialize())).serialize()
+    def put(src, dest):            # the value by the spec encoder of this file, not by WalletMessage.serialize
+        b, r = next(e for e in (enc('wm', src, ch) for ch in ((False, False), (False, True), (True, True), (True, False))) if e is not None)
+        dest.store_bits(b)
+        for c in r:
+            dest.store_ref(c)
+    return HashMap(64, map_=dict(q), value_serializer=put).serialize()
 
 
 # ----------------------------------------------------------------------------- spec encoder
@@ -401,7 +405,8 @@ def rand_value(rng, pool, kind=None):
     if kind == 'hl':
         q = None
         if rng.random() < 0.4:
-            q = {rng.getrandbits(64): rand_value(rng, pool, 'wm')[1] for _ in range(rng.choice([1, 2, 5]))}
+            q = {rng.getrandbits(64): x for x in (rand_value(rng, pool, 'wm')[1] for _ in range(rng.choice([1, 2, 5])))
+                 if M.enc_message(x['msg'], True, True) is not None}
         return kind, hl_value(u32(), u64(), pk, q)
     if kind == 'hu':
         return kind, dict(old=rng.randbytes(32), new=rng.randbytes(32))
